@@ -38,6 +38,15 @@ const APPLY_ALL_FIXES: &str = "ast-grep.applyAllFixes";
 const QUICKFIX_AST_GREP: &str = "quickfix.ast-grep";
 const FIX_ALL_AST_GREP: &str = "source.fixAll.ast-grep";
 
+/// a kind requested in `context.only` selects the fix-all action when it is the action's kind
+/// or one of its ancestors in the kind hierarchy (`source`, `source.fixAll`)
+fn selects_fix_all(requested: &str) -> bool {
+  FIX_ALL_AST_GREP == requested
+    || FIX_ALL_AST_GREP
+      .strip_prefix(requested)
+      .is_some_and(|rest| rest.starts_with('.'))
+}
+
 fn code_action_provider(
   client_capability: &ClientCapabilities,
 ) -> Option<CodeActionProviderCapability> {
@@ -358,7 +367,7 @@ impl<L: LSPLang> Backend<L> {
 
   async fn on_code_action(&self, params: CodeActionParams) -> Option<CodeActionResponse> {
     if let Some(kinds) = params.context.only.as_ref() {
-      if kinds.contains(&CodeActionKind::SOURCE_FIX_ALL) {
+      if kinds.iter().any(|k| selects_fix_all(k.as_str())) {
         return self.fix_all_code_action(params.text_document);
       }
     }
